@@ -91,6 +91,34 @@ func renderFasta(headers, seqs []string, l layout) string {
 
 var nameStems = []string{"q", "seq", "hCoV-19/x", "EPI_ISL_", "s.", "A|B|"}
 
+// splitNames splits a comma-separated name field of a case; a comma inside a name travels as %2C
+func splitNames(s string) []string {
+	out := strings.Split(s, ",")
+	for i := range out {
+		out[i] = strings.ReplaceAll(out[i], "%2C", ",")
+	}
+	return out
+}
+
+// randNamesCSV: as randNames, but 1 time in 6 the IDs contain a double quote or a comma (legal in a FASTA header;
+// `updown list` has to quote them for its CSV to be readable again)
+func randNamesCSV(r *RNG, n int, prefix string, allowComma bool) []string {
+	out := randNames(r, n, prefix)
+	if r.Chance(1, 6) {
+		marks := []string{"\"", "\"\"", "a\"b"}
+		if allowComma { // the topranking output itself is ambiguous for IDs with commas: only where outputs are compared as text
+			marks = append(marks, "%2C", "a\"b%2C")
+		}
+		mark := r.PickStr(marks)
+		for i := range out {
+			if r.Chance(1, 2) {
+				out[i] = out[i] + mark + "z"
+			}
+		}
+	}
+	return out
+}
+
 func randNames(r *RNG, n int, prefix string) []string {
 	out := make([]string, n)
 	stem := r.PickStr(nameStems)
